@@ -9,6 +9,7 @@ import (
 	"runtime"
 	"runtime/metrics"
 	"strings"
+	"syscall"
 	"testing"
 	"time"
 
@@ -35,7 +36,7 @@ func TestMain(m *testing.M) {
 		Assumptions: []string{
 			"the decoders are called the way their real callers call them (payload slices of any length >= 0, maxLen arguments taken from a catalog: 1..64Ki)",
 			"allocation is measured with runtime/metrics /gc/heap/allocs:bytes around the call; background goroutines of the same process allocate far less than the 64 MiB threshold during one call; a reading above the bound is confirmed by re-running pure decoders twice (minimum counts), stateful targets (ReplicateTx, open, client calls) use a 1 GiB bound instead",
-			"the 30 s bound is a liveness bound only (hang detection); no case is failed for being slow below it",
+			"liveness: a call is a hang only after 30 s of wall time AND 20 s of process CPU time (busy loop, gigabyte memset), or after 240 s whatever the CPU (deadlock); nothing is failed for being slow on a loaded machine",
 			"ReplicateTx inputs whose header ID is ahead of the replica wait for the missing predecessor by design; they are called with a 150 ms context and must return an error",
 			"pgsql session read loop over net.Pipe is not driven (session type is unexported and needs a full server); its per-message parsers (fmessages.Parse*) are called with exactly the payloads ReadRawMessage can hand over (any length 0..MaxMsgSize)",
 			"native fuzz targets run in the thorough tier only; quick tier replays their seed corpus",
@@ -98,7 +99,23 @@ func heapAllocs() uint64 {
 	return 0
 }
 
-const hangBound = 30 * time.Second
+// Liveness: a call "hangs" when it has not returned after hangBound of wall
+// time AND the process has burnt hangCPU of CPU time since it started (a busy
+// loop / gigabyte memset), or after deadBound of wall time whatever the CPU
+// (a deadlock). Wall time alone is not used: the machine may be oversubscribed.
+const (
+	hangBound = 30 * time.Second
+	hangCPU   = 20 * time.Second
+	deadBound = 240 * time.Second
+)
+
+func procCPU() time.Duration {
+	var ru syscall.Rusage
+	if err := syscall.Getrusage(syscall.RUSAGE_SELF, &ru); err != nil {
+		return 0
+	}
+	return time.Duration(ru.Utime.Nano() + ru.Stime.Nano())
+}
 
 // run executes f in a child goroutine, turning a panic into a recorded result
 // and a missing return within hangBound into hung=true.
@@ -119,14 +136,20 @@ func run(f func()) result {
 		}()
 		f()
 	}()
+	t0, c0 := time.Now(), procCPU()
 	t := time.NewTimer(hangBound)
 	defer t.Stop()
-	select {
-	case r := <-done:
-		r.alloc = heapAllocs() - a0
-		return r
-	case <-t.C:
-		return result{hung: true, stack: hungStack()}
+	for {
+		select {
+		case r := <-done:
+			r.alloc = heapAllocs() - a0
+			return r
+		case <-t.C:
+			if time.Since(t0) >= deadBound || procCPU()-c0 >= hangCPU {
+				return result{hung: true, stack: hungStack()}
+			}
+			t.Reset(2 * time.Second)
+		}
 	}
 }
 
@@ -220,7 +243,7 @@ func (r result) verdict(what string, inputLen int) string {
 	case r.panicked:
 		return fmt.Sprintf("%s PANICKED: %s  [%s]", what, r.pval, r.stack)
 	case r.hung:
-		return fmt.Sprintf("%s did not return within %s; it is at: %s", what, hangBound, r.stack)
+		return fmt.Sprintf("%s did not return (>= %s of wall time and >= %s of CPU time, or %s); it is at: %s", what, hangBound, hangCPU, deadBound, r.stack)
 	case r.alloc > r.limit(inputLen):
 		return fmt.Sprintf("%s allocated %d MiB for a %d-byte input (bound %d MiB)", what, r.alloc>>20, inputLen, r.limit(inputLen)>>20)
 	}
